@@ -17,12 +17,16 @@
 //!                                     bit, sealed with the keys of generation gen (< 2^32) or forged; `rsv` = the
 //!                                     reserved header bits are set   -> o:<opened 0|1> p:<PING frames processed>
 //!   update                            Connection::force_key_update                 -> ok
+//!   ackd <pn>                         an ACK frame of the peer acknowledges our 1-RTT packet pn (pn must have been sent:
+//!                                     pn < next_packet_number, else bad-op); only its effect on
+//!                                     `spaces[Data].largest_acked_packet` (= max) is applied - no RTT sample, so PTO
+//!                                     stays constant                                  -> ok
 //!   send                              Connection::ping + poll_transmit             -> sent <phase bit> <gen of the tag> | none | closed
 //!   tick <us>                         advance the clock (<= 10^9)                   -> ok
 //!   timeout                           Connection::handle_timeout(now)              -> ok
 //!   view                                                                            -> ok
 //! Every response ends with
-//!   ` | ph=<key_phase> cur=<gen> prev=<gen>:<end_packet|->:<update_unacked>|- next=<gen> swk=<sent_with_keys> rx=<rx_packet>
+//!   ` | ph=<key_phase> cur=<gen> prev=<gen>:<end_packet|->:<update_unacked>|- next=<gen> swk=<sent_with_keys> npn=<next_packet_number> la=<largest_acked_packet|-> rx=<rx_packet>
 //!      authed=<total_authed_packets> fail=<authentication_failures> dd=<dedup next>:<window, decimal>
 //!      kd=<KeyDiscard deadline us|-> st=<est|closed|draining|drained> err=<transport error code|->`
 //! where the generation of an installed key is found by trial (which tag it accepts).
@@ -342,8 +346,9 @@ impl KeyUpdC {
             None => "-".into(),
         };
         format!(
-            "{r} | ph={} cur={cur} prev={prev} next={next} swk={} rx={} authed={} fail={} dd={dnext}:{window} kd={kd} st={st} err={err}",
-            c.key_phase as u8, data.sent_with_keys, data.rx_packet, c.total_authed_packets, c.authentication_failures,
+            "{r} | ph={} cur={cur} prev={prev} next={next} swk={} npn={} la={} rx={} authed={} fail={} dd={dnext}:{window} kd={kd} st={st} err={err}",
+            c.key_phase as u8, data.sent_with_keys, data.next_packet_number,
+            data.largest_acked_packet.map_or("-".to_string(), |n| n.to_string()), data.rx_packet, c.total_authed_packets, c.authentication_failures,
         )
     }
 }
@@ -409,6 +414,14 @@ impl Comp for KeyUpdC {
                     self.conn.stats.frame_rx.ping - pings
                 );
                 self.view(&r)
+            }
+            ["ackd", pn] => {
+                let data = &mut self.conn.spaces[SpaceId::Data];
+                let Some(pn) = num(pn).filter(|&x| x < data.next_packet_number) else {
+                    return BAD.into();
+                };
+                data.largest_acked_packet = Some(data.largest_acked_packet.map_or(pn, |x| x.max(pn)));
+                self.view("ok")
             }
             ["update"] => {
                 self.conn.force_key_update();
